@@ -17,7 +17,7 @@ COMPONENTS = {'real': ['src/interpret.c', 'src/frame.c', 'src/stack.c', 'src/err
 ASSUMPTIONS = ['set_eval_limit/reset_eval_cost are excluded (documented privileged override)',
                'the size invariant is observed on the value on top of the stack at every instruction and on builder results; the builder list is a sample of the operator/efun surface']
 SPINS = ['sp_while', 'sp_for', 'sp_dowhile', 'sp_foreach', 'sp_foreach_map', 'sp_foreach_str', 'sp_whiledec', 'sp_loopcond', 'sp_looplocal', 'sp_objname',
-         'rc_direct', 'rc_mut_a', 'rc_fp', 'rc_filter', 'rc_map', 'rc_sort', 'rc_unique', 'rc_callother', 'rc_catch', 'rc_catch2', 'sp_catchdiv', 'sp_catcherr', 'sp_catchthrow', 'sp_catchidx', 'sp_catchdest', 'rc_catcherr', 'rc_fpargs', 'rc_spread', 'rc_efunfp']
+         'rc_direct', 'rc_mut_a', 'rc_fp', 'rc_filter', 'rc_map', 'rc_sort', 'rc_unique', 'rc_callother', 'rc_catch', 'rc_catch2', 'sp_catchdiv', 'sp_catcherr', 'sp_catchthrow', 'sp_catchidx', 'sp_catchdest', 'rc_catcherr', 'rc_aggr', 'rc_aggr', 'rc_aggrs', 'rc_args', 'rc_fpargs', 'rc_spread', 'rc_efunfp']
 BUILDS = ['str+=', 'str+', 'gstr+=', 'sprintf', 'repeat', 'replace', 'implode', 'arr+=', 'arr+', 'garr+=', 'allocate', 'explode', 'map+', 'mapins',
           'gmapins', 'allocmap', 'allocbuf', 'buf+', 'copy', 'keys', 'strrange', 'arrrange', 'bufrange', 'gstrrange', 'replace5', 'replace1', 'spad', 'spadr',
           'scol', 'imparr', 'strslice', 'mapmul', 'replace_end', 'replace_mid']
